@@ -6,8 +6,22 @@ import engine_pur as pur
 import engine_cli as cli
 import engine_flw as flw
 import engine_flw2 as flw2
+import engine_pan as pan
 
 PROPS = {
+    "C02": {
+        "rules": [("PAN-1", pan.pan1), ("PAN-2", pan.pan2), ("PAN-3", pan.pan3), ("PAN-4", pan.pan4), ("ERR-1", err.err1)],
+        "explanation": "Decides four panic mechanisms whose presence is visible in the shape of the code (each a necessary condition of C02), not termination or "
+                       "value-dependent panics. PAN-1: forward liveness of every RefCell guard on MIR plus interprocedural borrow summaries (cells = SubRule fields / "
+                       "&RefCell parameters mapped through call sites): no borrow, and no call that may borrow, of a cell while a conflicting guard on it is live. "
+                       "PAN-2: no digits of rule/alias text reach parse::<int>().unwrap()/expect() (arms the grammar can never reach are discharged with the PAN-3 "
+                       "producer table). PAN-3/PAN-4: a may-analysis of the parsers' HIR gives, per container (Input, Output, Env, Set, Structure, Optional; "
+                       "(de)romaniser sides), the element kinds the grammar can put there; a tag analysis of the interpreter gives the containers whose elements reach "
+                       "each match with an unreachable!/unimplemented! arm; the intersection must be empty (EmptySet/Metathesis discharged by four checked rule-type "
+                       "conditions). ERR-1: no formatter call resolves to an unreachable!() stub.",
+        "does_not_decide": "termination (e.g. `$ > $` spins); index / slice / arithmetic / Option::unwrap panics that depend on cursor values (e.g. `r...l > l r r`); stack depth of the recursive matcher.",
+        "assumptions": ["all SubRule methods are invoked on the same SubRule object (cells named by field)"],
+    },
     "C08": {
         "rules": [("FLW-5", flw2.flw5), ("FLW-6", flw2.flw6), ("FLW-7", flw2.flw7), ("TAB-2", tab.tab2), ("TAB-3", tab.tab3)],
         "explanation": "Decides the invariant-maintenance clauses of C08: a representation invariant holds after every rule iff every writer re-establishes it. "
